@@ -678,7 +678,7 @@ def run(ctx: vf.Ctx):
     ctx.assumptions += [
         'Circuit.append/pop/insert place operations so that iteration order respects per-qudit order (C04/C05); the Quick model keeps the partitioned circuit as a list and outputs are compared up to commutation of operations on disjoint qudits',
         'the order of `for p in partitioned_circuit.rear` (a set) does not change the merged block up to commutation (argued in design_notes/C08.md, validated by every correspondence case)',
-        'liveness of QuickPartitioner (no RuntimeError) on circuits without barrier-like operations is covered by correspondence only; with barriers it is refuted (C08_quick_all_emitted_refuted, finding C08.Q1)',
+        'liveness of QuickPartitioner (no RuntimeError): refuted for the unchanged code with barriers (C08_quick_all_emitted_refuted, finding C08.Q1); proved for the repaired code and for barrier-free input (C08_quick_all_emitted); the two asserts of the main loop (model results EAssert/ENoBin/EFuel) are covered by correspondence only',
         'gates are interned by (gate, parameters) value; blocks already present in the input are atomic',
     ]
     ctx.trusted = ['Coq 8.16.1 kernel', 'ExtrOcamlBasic extraction, OCaml 4.13.1, coq/extract/part_driver.ml',
@@ -726,7 +726,7 @@ def run(ctx: vf.Ctx):
     per = {}
     for name in PARTITIONERS:
         per[CLASSNAME[name]] = dict(
-            status='proved (partial correctness, unbounded) + model correspondence + oracle-checked' if name == 'Quick' else 'oracle-checked',
+            status='proved (safety for all inputs; liveness for the repaired code and barrier-free input; unbounded) + model correspondence + oracle-checked' if name == 'Quick' else 'oracle-checked',
             accepted=stat.get(name + ':ok', 0), rejected_documented=stat.get(name + ':rejected', 0),
             raised=stat.get(name + ':exc', 0), good=stat.get(name + ':good', 0), bad=stat.get(name + ':bad', 0),
             blocks=stat.get(name + ':blocks', 0))
@@ -734,8 +734,8 @@ def run(ctx: vf.Ctx):
     per['QuickPartitioner']['hint_sets_with_choice'] = stat.get('Quick:hint_sets>1', 0)
     per['QuickPartitioner']['raised_pending_bins'] = stat.get('Quick:pending_bins', 0)
     ctx.cov['partitioners'] = per
-    ctx.cov['functions_with_theorems'] = ['QuickPartitioner.run (partial correctness: C08_quick_correct_partial)', 'check_partition (C08_check_sound)']
-    ctx.cov['correspondence_only'] = ['QuickPartitioner liveness (no RuntimeError) without barriers', 'Circuit.append/pop cycle placement']
+    ctx.cov['functions_with_theorems'] = ['QuickPartitioner.run (partial correctness for all inputs: C08_quick_correct_partial; no RuntimeError for the repaired code / barrier-free input: C08_quick_all_emitted)', 'check_partition (C08_check_sound)']
+    ctx.cov['correspondence_only'] = ['the two asserts of QuickPartitioner.run (EAssert/ENoBin/EFuel of the model)', 'Circuit.append/pop cycle placement', 'order-independence of `for p in partitioned_circuit.rear`']
     ctx.cov['uncovered'] = ['ScanPartitioner, ClusteringPartitioner, GreedyPartitioner, GTQCPartitioner, TDAGPartitioner, GroupSingleQuditGatePass, ExtendBlockSizePass have no model: decided per run by the verified oracle']
     if not ctx.quick():
         # independent re-check of the compiled proofs
